@@ -36,9 +36,13 @@ Record row := mkRow {
   rvals : list Z             (* value columns, in value_columns order *)
 }.
 Record simulant := mkSim {
-  skeys : list Z;            (* the simulant's attributes for the key columns *)
-  sparams : list Z           (* ... and for the parameter columns (the slot of `year` is filled in by the table) *)
+  skeys : list Z;            (* the simulant's attributes for the key columns; a missing value (None / NaN) is [nan_key] *)
+  sparams : list Z;          (* ... and for the parameter columns (the slot of `year` is filled in by the table) *)
+  snans : list Z;            (* positions (parameter numbers) whose attribute is NaN; the number in [sparams] at such a
+                                position is meaningless *)
+  sbads : list Z             (* positions whose attribute is not a number at all (a string in an object column) *)
 }.
+Definition nan_key : Z := -1.
 
 Definition starts (r : row) : list Z := map fst (rbins r).
 Definition stops (r : row) : list Z := map snd (rbins r).
@@ -108,17 +112,27 @@ Definition max_right (G : list row) (p : nat) : Z := col_max (map (stop p) G).
 Definition all_edges (G : list row) (k : nat) : list (list Z) := map (edges G) (seq 0 k).
 
 Definition param (p : nat) (s : simulant) : Z := nth p (sparams s) 0.
+Definition isnan (p : nat) (s : simulant) : bool := zmem (Z.of_nat p) (snans s).
+Definition isbad (p : nat) (s : simulant) : bool := zmem (Z.of_nat p) (sbads s).
+Definition any_bad (k : nat) (s : simulant) : bool := existsb (fun p => isbad p s) (seq 0 k).
+Definition key_has_nan (key : list Z) : bool := zmem nan_key key.
+
+(* NaN attributes (the code as it is): np.digitize(NaN, bins) = len(bins), so the clamp selects the LAST bin; and
+   Series.min() / .max() skip NaN, so a NaN never triggers the range test - not even with extrapolation off. *)
+Definition chosen_edge_s (bins : list Z) (p : nat) (s : simulant) : Z :=
+  if isnan p s then nth (length bins - 1) bins 0 else chosen_edge bins (param p s).
 
 (* `interpolant_col.min() < bins[0] or interpolant_col.max() >= max_right` for parameter p over the sub-table ss *)
 Definition out_of_range (G : list row) (p : nat) (ss : list (Z * simulant)) : bool :=
-  let xs := map (fun s => param p (snd s)) ss in
-  (col_min xs <? hd 0 (edges G p)) || (max_right G p <=? col_max xs).
+  let xs := map (fun s => param p (snd s)) (filter (fun s => negb (isnan p (snd s))) ss) in
+  if is_nil xs then false                                    (* min / max of an all-NaN column are NaN: both tests False *)
+  else (col_min xs <? hd 0 (edges G p)) || (max_right G p <=? col_max xs).
 
 (* the left edges chosen for one simulant, one per parameter; Es = the edge lists of parameters p, p+1, ... *)
 Fixpoint chosen_from (p : nat) (Es : list (list Z)) (s : simulant) : list Z :=
   match Es with
   | [] => []
-  | E :: r => chosen_edge E (param p s) :: chosen_from (S p) r s
+  | E :: r => chosen_edge_s E p s :: chosen_from (S p) r s
   end.
 (* rows of the group whose left edges equal the chosen ones: what the merge on the *_start columns pairs up *)
 Definition matches (G : list row) (c : list Z) : list row := filter (fun r => zlist_eqb (starts r) c) G.
@@ -134,6 +148,8 @@ Definition merge_left (G : list row) (Es : list (list Z)) (ss : list (Z * simula
 (* Order0Interp.__call__ on the non-empty sub-table ss of one key group; ValueError = EConfig.
    `.set_index(index)` is positional and raises (ValueError: Length mismatch) when the merge changed the row count *)
 Definition order0 (ext : bool) (G : list row) (k : nat) (ss : list (Z * simulant)) : result frame :=
+  (* a non-numeric attribute anywhere in the sub-table: Series.min() / np.digitize raise TypeError *)
+  if existsb (fun s => any_bad k (snd s)) ss then Rejected EOther else
   if negb ext && existsb (fun p => out_of_range G p ss) (seq 0 k) then Rejected EConfig
   else let m := merge_left G (all_edges G k) ss in
        if (length m =? length ss)%nat then Ok (combine (map fst ss) m) else Rejected EConfig.
@@ -164,9 +180,13 @@ Section Groups.
         end
     end.
 
-  (* result = DataFrame(index=interpolants.index, dtype=float64)  (all NaN), then the groups in sorted key order *)
+  (* result = DataFrame(index=interpolants.index, dtype=float64)  (all NaN), then the groups in sorted key order;
+     groupby drops the rows whose key tuple has a missing value (dropna=True): they belong to no group and keep their
+     row of NaN *)
+  Definition request_keys (ss : list (Z * simulant)) : list (list Z) :=
+    sort_keys (filter (fun key => negb (key_has_nan key)) (map (fun s => skeys (snd s)) ss)).
   Definition by_groups (ss : list (Z * simulant)) : result frame :=
-    run_groups ss (sort_keys (map (fun s => skeys (snd s)) ss)) (map (fun s => (fst s, None)) ss).
+    run_groups ss (request_keys ss) (map (fun s => (fst s, None)) ss).
 End Groups.
 
 (* self.interpolations[key] (KeyError = EPopulation when the data has no row with that key tuple) *)
@@ -198,7 +218,11 @@ Fixpoint gather (pop : list (Z * simulant)) (idx : list Z) : option (list (Z * s
 Definition year_value (D y yday : Z) : Z := D * (1461 * y + 4 * yday).
 
 Definition with_year (ypos : option nat) (yv : Z) (s : simulant) : simulant :=
-  match ypos with None => s | Some p => mkSim (skeys s) (set_nth p yv (sparams s)) end.
+  match ypos with
+  | None => s
+  | Some p => mkSim (skeys s) (set_nth p yv (sparams s)) (filter (fun q => negb (q =? Z.of_nat p)) (snans s))
+                    (filter (fun q => negb (q =? Z.of_nat p)) (sbads s))
+  end.
 Definition with_year_all (ypos : option nat) (yv : Z) (ss : list (Z * simulant)) : list (Z * simulant) :=
   map (fun s => (fst s, with_year ypos yv (snd s))) ss.
 
@@ -214,14 +238,18 @@ Definition table_call (ext : bool) (d : list row) (k : nat) (ypos : option nat) 
 (* one simulant on its own: the specification the theorems are about (C15_local ties table_call to it)           *)
 (* ------------------------------------------------------------------------------------------------------------ *)
 Definition chosen (G : list row) (k : nat) (s : simulant) : list Z :=
-  map (fun p => chosen_edge (edges G p) (param p s)) (seq 0 k).
+  map (fun p => chosen_edge_s (edges G p) p s) (seq 0 k).
 Definition low_edge (G : list row) (p : nat) : Z := hd 0 (edges G p).
 Definition out_one (G : list row) (p : nat) (x : Z) : bool := (x <? low_edge G p) || (max_right G p <=? x).
+Definition out_one_s (G : list row) (p : nat) (s : simulant) : bool := negb (isnan p s) && out_one G p (param p s).
 
+(* a missing key attribute: no group, a row of NaN (silently); an unknown key tuple: KeyError *)
 Definition lookup_row (ext : bool) (d : list row) (k : nat) (s : simulant) : result (option row) :=
+  if key_has_nan (skeys s) then Ok None else
   match group d (skeys s) with
   | [] => Rejected EPopulation
-  | G => if negb ext && existsb (fun p => out_one G p (param p s)) (seq 0 k) then Rejected EConfig
+  | G => if any_bad k s then Rejected EOther
+         else if negb ext && existsb (fun p => out_one_s G p s) (seq 0 k) then Rejected EConfig
          else match matches G (chosen G k s) with
               | [] => Ok None
               | [r] => Ok (Some r)
@@ -339,6 +367,7 @@ Definition cat_call (d : list row) (pop : list (Z * simulant)) (idx : list Z) : 
 
 (* one simulant on its own: the data row with the simulant's key tuple (exactly one) *)
 Definition cat_one (d : list row) (s : simulant) : result cells :=
+  if key_has_nan (skeys s) then Ok None else
   match group d (skeys s) with [r] => Ok (Some (rvals r)) | _ => Rejected EConfig end.
 
 Fixpoint nodup_keys (d : list row) : bool :=
@@ -370,8 +399,9 @@ Definition obs_agrees (r : result frame) (o : obs) : bool :=
 
 Definition raw_row := (list Z * list (Z * Z) * list Z)%type.
 Definition mk_row (r : raw_row) : row := let '(ks, bs, vs) := r in mkRow ks bs vs.
-Definition raw_sim := (Z * (list Z * list Z))%type.
-Definition mk_sim (s : raw_sim) : Z * simulant := (fst s, mkSim (fst (snd s)) (snd (snd s))).
+Definition raw_sim := (Z * (list Z * list Z * list Z * list Z))%type.
+Definition mk_sim (s : raw_sim) : Z * simulant :=
+  let '(i, (ks, ps, ns, bs)) := s in (i, mkSim ks ps ns bs).
 
 (* one call of an interpolated table: clock (year, day of year) read by the harness, the value the code put into the
    `year` column (captured from the argument of Interpolation.__call__; None when there was none), requested labels,
